@@ -50,6 +50,8 @@ def dep_predicate_handler(fn, values):
         return ["VarRange", fn[1][values[0]]]
     if kind == "LSBUpTo":
         return ["LSB", 0, values[0]]
+    if kind == "IntRangeHiLo":  # dependencies are named (hi, lo) in this order: hi-lo .. hi
+        return ["IntRange", values[0] - values[1], values[0]]
     raise ValueError(fn)
 
 
@@ -66,6 +68,8 @@ def _dep_callable(fn):
         return lambda x: VarRange(list(table[x]))
     if kind == "LSBUpTo":
         return lambda x: ListSizeBetween(0, x)
+    if kind == "IntRangeHiLo":
+        return lambda hi, lo: IntRange(hi - lo, hi)
     raise ValueError(fn)
 
 
@@ -130,12 +134,62 @@ class Bundle:
         sys.modules.pop(self.module.__name__, None)
 
 
+def mh_src(mh, ns) -> str:
+    """Python source of a refinement (for grammars declared under `from __future__ import annotations`)."""
+    k = mh[0]
+    if k in ("IntRange", "FloatRange"):
+        return f"{k}({mh[1]!r}, {mh[2]!r})"
+    if k in ("IntList", "FloatList", "VarRange"):
+        return f"{k}({list(mh[1])!r})"
+    if k == "LSB":
+        return f"ListSizeBetween({mh[1]!r}, {mh[2]!r})"
+    if k == "LSBW":
+        return f"ListSizeBetweenWithoutListOperations({mh[1]!r}, {mh[2]!r})"
+    if k == "SSB":
+        return f"StringSizeBetween({mh[1]!r}, {mh[2]!r}, {mh[3]!r})"
+    if k == "WSH":
+        return f"WeightedStringHandler(np.array({mh[1]!r}), {list(mh[2])!r})"
+    if k == "IntervalRange":
+        return f"IntervalRange({mh[1]!r}, {mh[2]!r}, {mh[3]!r})"
+    if k == "Dep":
+        name = f"_dep{len([x for x in ns if x.startswith('_dep')])}"
+        ns[name] = _dep_callable(mh[2])
+        return f"Dependent({mh[1]!r}, {name})"
+    raise ValueError(mh)
+
+
+def type_src(t, ns) -> str:
+    if isinstance(t, str):
+        return t
+    k = t[0]
+    if k == "ref":
+        return t[1]
+    if k == "list":
+        return f"list[{type_src(t[1], ns)}]"
+    if k == "union":
+        return "Union[" + ", ".join(type_src(x, ns) for x in t[1:]) + "]"
+    if k == "tuple":
+        return "tuple[" + ", ".join(type_src(x, ns) for x in t[1:]) + "]"
+    if k == "ann":
+        return f"Annotated[{type_src(t[1], ns)}, {mh_src(t[2], ns)}]"
+    raise ValueError(t)
+
+
 def build(spec, hash_order: Optional[dict[str, int]] = None) -> Bundle:
     modname = f"verif_grammar_{next(_counter)}"
     mod = types.ModuleType(modname)
     sys.modules[modname] = mod
     classes: dict[str, type] = {}
     ns = mod.__dict__
+    stringify = bool(spec.get("stringify"))
+    if stringify:
+        import numpy as np
+
+        ns.update(dict(Annotated=Annotated, Union=Union, IntRange=IntRange, IntList=IntList, FloatRange=FloatRange,
+                       FloatList=FloatList, VarRange=VarRange, ListSizeBetween=ListSizeBetween,
+                       ListSizeBetweenWithoutListOperations=ListSizeBetweenWithoutListOperations,
+                       StringSizeBetween=StringSizeBetween, WeightedStringHandler=WeightedStringHandler,
+                       IntervalRange=IntervalRange, Dependent=Dependent, np=np))
 
     def ty(t) -> Any:
         if isinstance(t, str):
@@ -187,7 +241,12 @@ def build(spec, hash_order: Optional[dict[str, int]] = None) -> Bundle:
         ns[name] = cls
     for name, parent, w, fields in spec["prods"]:
         cls = classes[name]
-        cls.__annotations__ = {fn: ty(ft) for fn, ft in fields}
+        if stringify:
+            # as in a module that starts with `from __future__ import annotations`: annotations are source
+            # strings, re-evaluated (with fresh refinement objects) by every get_type_hints call
+            cls.__annotations__ = {fn: type_src(ft, ns) for fn, ft in fields}
+        else:
+            cls.__annotations__ = {fn: ty(ft) for fn, ft in fields}
         cls = dataclass(cls)
         if w is not None:
             cls = weight(w)(cls)
@@ -297,6 +356,7 @@ FR = ["ann", "float", ["FloatRange", 0.0, 1.0]]
 SSB = ["ann", "str", ["SSB", 1, 2, "ab"]]
 SSB0 = ["ann", "str", ["SSB", 0, 1, "a"]]
 WSH = ["ann", "str", ["WSH", [[0.5, 0.5], [1.0, 0.0]], ["a", "b"]]]
+WSH2 = ["ann", "str", ["WSH", [[2.0, 2.0], [3.0, 1.0]], ["a", "b"]]]  # rows given as counts, not normalised
 IVR = ["ann", ["tuple", "int", "int"], ["IntervalRange", 1, 2, 4]]
 
 
@@ -341,6 +401,7 @@ def finite_alphabet(A="A", L="L"):
         SSB0,
         WSH,
         IVR,
+        WSH2,
     ]
 
 
@@ -657,6 +718,53 @@ def family_shapes():
             "start": "A",
         },
     )
+    # S22 an abstract type that has no production at all (an unused extension point) next to a usable one
+    out.append(
+        {
+            "name": "S22:empty-abstract",
+            "abstract": [["A", None, "ABC"], ["Z", None, "ABC"]],
+            "prods": [
+                ["L", "A", None, [["v", IR01]]],
+                ["P", "A", None, [["z", ref("Z")]]],
+                ["N", "A", None, [["x", ref("A")]]],
+            ],
+            "start": "A",
+        },
+    )
+    # S23 a refinement that names its dependencies in another order than the fields are declared
+    out.append(
+        {
+            "name": "S23:dependent-order",
+            "abstract": [["A", None, "ABC"]],
+            "prods": [
+                ["L", "A", None, [["v", IR01]]],
+                [
+                    "R",
+                    "A",
+                    None,
+                    [
+                        ["lo", IR01],
+                        ["hi", ["ann", "int", ["IntRange", 2, 3]]],
+                        ["x", ["ann", "int", ["Dep", "hi,lo", ["IntRangeHiLo"]]]],
+                    ],
+                ],
+            ],
+            "start": "A",
+        },
+    )
+    # S24 a union field after a sibling whose name also exists (with another type) in one of the alternatives
+    out.append(
+        {
+            "name": "S24:union-name-clash",
+            "abstract": [["A", None, "ABC"]],
+            "prods": [
+                ["L", "A", None, [["v", IR01]]],
+                ["K", None, None, [["k", IR22]]],
+                ["P", "A", None, [["v", ref("A")], ["u", ["union", ref("L"), ref("K")]]]],
+            ],
+            "start": "A",
+        },
+    )
     # S16 union of two abstract types of different minimum depth
     out.append(
         {
@@ -726,15 +834,30 @@ def finite_family(tier: str):
     fa = finite_alphabet()
     out = list(family_one_abstract(fa, 1 if tier == "quick" else 2, "F1"))
     out += [s for s in family_shapes() if s["name"].split(":")[0] in
-            ("S1", "S2", "S3", "S4", "S5", "S6", "S7", "S8", "S9", "S10", "S12", "S13", "S14", "S15", "S16", "S17", "S18", "S19", "S20")]
+            ("S1", "S2", "S3", "S4", "S5", "S6", "S7", "S8", "S9", "S10", "S12", "S13", "S14", "S15", "S16", "S17", "S18", "S19", "S20", "S22", "S23", "S24")]
     out += list(family_two_abstract(finite_alphabet, "F2"))
     out += list(family_nested(finite_alphabet, "F3"))
     return out
 
 
+def stringified(specs):
+    out = []
+    for sp in specs:
+        s2 = dict(sp)
+        s2["name"] = sp["name"] + "$str"
+        s2["stringify"] = True
+        out.append(s2)
+    return out
+
+
 def general_family(tier: str):
-    """Finite family plus grammars with unbounded base types and un-annotated lists."""
+    """Finite family plus grammars with unbounded base types and un-annotated lists, plus variants of some
+    grammars declared with string annotations (`from __future__ import annotations`)."""
     out = finite_family(tier)
+    fa = finite_alphabet()
+    pick = [s for s in family_shapes() if s["name"].split(":")[0] in ("S1", "S2", "S6", "S7", "S8", "S9", "S12", "S17", "S19", "S23", "S10")]
+    pick += [_one_abstract(f"F1:{i}", [fa[i]]) for i in (0, 5, 8, 10, 13, 15, 17, 19, 20)]
+    out += stringified(pick)
     ia = infinite_alphabet()
     out += list(family_one_abstract(ia, 1, "G1"))
     if tier != "quick":
